@@ -284,4 +284,20 @@ func init() {
 			"A-call: copyNumber's premises (coord is a minified number, coord does not alias the buffer) are established by its callers from Number's output; those call-site obligations are generated but not discharged (interior pointers &p.curBuffer are outside the memory model) and are not claimed",
 		},
 	})
+	registerProp(&PropSpec{
+		ID:       "C03",
+		Patterns: []string{"./html"},
+		Units: []string{
+			modPath + "/html.(*TokenBuffer).read", modPath + "/html.NewTokenBuffer", modPath + "/html.(*TokenBuffer).Peek",
+			modPath + "/html.(*TokenBuffer).Shift", modPath + "/html.(*TokenBuffer).Attributes",
+		},
+		Custom:  []string{"partial"},
+		Partial: []string{modPath + "/html.(*Minifier).Minify"},
+		Notes: []string{
+			"html.TokenBuffer (the look-ahead buffer every omission decision reads) under full contract: Peek(i) consumes nothing, keeps every buffered token across reallocation, performs one lexer read per newly buffered token and returns the i-th token of the view or the final error token; Shift hands out the first token; Attributes(hashes...) returns, per requested hash, the matching attribute token of the current start tag or nil, scanning only that tag's attribute tokens - all loops with invariants and variants, every index in range",
+			"site assertions in the real html.(*Minifier).Minify written from the HTML standard: a </p> is omitted only when the next token that is not inter-element whitespace is the end of input, an end tag of a parent that does not keep p open, or the start tag of an element that closes p - never before a comment, inline svg/math, text or template token (the look-ahead loops carry the invariant that no omission was decided yet); </optgroup> only at the end or when no option follows; the value attribute of input is dropped only when it equals the default of the input's type (\"on\" for radio, empty otherwise); text is collapsed/entity-rewritten only outside pre and raw-text elements; a leading space is cut only when omitSpace allows it; KeepQuotes passes the attribute's own quote (C16); embedded resource dispatch (C11); end-of-input obligations (C14); the option struct is not written (C13)",
+			"the trait tables behind these decisions (omitPTag/keepPTag, blockTag/objectTag, boolean and URL attributes, entity maps, attribute defaults) are the C17 table lemmas",
+			"not decided: tree equality as a whole (needs an HTML5 tree-construction model), the unconditional omission of li/td/tr/... end tags in contexts with script-supporting siblings, html/head/body tag removal, the right-trim look-ahead, attribute quoting/escaping (EscapeAttrVal, dependency), entity rewriting, '</script' inside script text, Keep* combinations",
+		},
+	})
 }
